@@ -298,15 +298,55 @@ func (m *Model) writeRange(o *MObj, off uint64, data []byte) {
 		if c > n-i {
 			c = n - i
 		}
-		np := make([]byte, pageSz)
-		if p, ok := o.Pages[pg]; ok {
-			copy(np, p)
+		if po == 0 && c == pageSz {
+			// a whole page: share the request's bytes (requests are immutable), so
+			// that the many model states of a history checker do not each hold a copy
+			o.Pages[pg] = data[i : i+c : i+c]
+			i += c
+			continue
 		}
+		prev := o.Pages[pg]
+		var key pwKey
+		if internPages {
+			// the same partial write applied to the same page (by identity) gives the
+			// same page: the states a history checker explores share the result
+			key = pwKey{src: &data[i], po: po, c: c}
+			if len(prev) > 0 {
+				key.prev = &prev[0]
+			}
+			pageHashMu.Lock()
+			np, ok := pageWriteCache[key]
+			pageHashMu.Unlock()
+			if ok {
+				o.Pages[pg] = np
+				i += c
+				continue
+			}
+		}
+		np := make([]byte, pageSz)
+		copy(np, prev)
 		copy(np[po:po+c], data[i:i+c])
 		o.Pages[pg] = np
+		if internPages {
+			pageHashMu.Lock()
+			pageWriteCache[key] = np
+			pageHashMu.Unlock()
+		}
 		i += c
 	}
 }
+
+type pwKey struct {
+	prev, src *byte
+	po, c     uint64
+}
+
+// internPages is switched on by the engines that run a history checker over
+// many model states (reset per run with the page-hash cache).
+var (
+	internPages    bool
+	pageWriteCache = map[pwKey][]byte{}
+)
 
 func (m *Model) truncate(o *MObj, sz uint64) {
 	if sz < o.Size {
